@@ -598,7 +598,6 @@ func recvCallOn(info *types.Info, call *ast.CallExpr, pkgpath, typeName, method 
 	return np == pkgpath+"."+typeName || np == modPath+"/"+pkgpath+"."+typeName
 }
 
-
 // deepInspect visits the nodes of fr's body and, for every call to a function of the same package, the nodes of that
 // function's body too (transitively up to depth), so that a rule looking for a construct "in F" still finds it
 // after the construct was extracted into a helper of the package. visit receives the types.Info of the file the
